@@ -9,7 +9,7 @@ matrix = json.load(open(H + "/seeded/MATRIX.json")) if os.path.exists(H + "/seed
 kf = json.load(open(H + "/known_findings.json"))
 out = []
 out.append("### 6.1 Checks as built (last run on this machine, seed 1) and sensitivity\n")
-out.append("| id | engine | parts | evaluations (tier of the last run) | distinct non-trivial | exhaustive parts | catalogue mutants | seeded changes, rounds 1/2/3 (independent agents) |")
+out.append("| id | engine | parts | evaluations (tier of the last run) | distinct non-trivial | exhaustive parts | catalogue mutants | seeded changes, rounds 1/2/3/4 (independent agents) |")
 out.append("|---|---|---|---|---|---|---|---|")
 for c in man["checks"]:
     pid = c["property_id"]
@@ -20,7 +20,7 @@ for c in man["checks"]:
     cov = ev.get("coverage", {})
     mp = H + "/mutants/%s.json" % pid
     nm = len(json.load(open(mp))) if os.path.exists(mp) else 0
-    sm = " / ".join(matrix.get(pid + sfx, {}).get("verdict", "-") for sfx in ("", ".r2", ".r3"))
+    sm = " / ".join(matrix.get(pid + sfx, {}).get("verdict", "-") for sfx in ("", ".r2", ".r3", ".r4"))
     out.append("| %s | %s | %s | %s (%s) | %s | %s | %d | %s |" % (
         pid, c.get("engine", ""), ", ".join(sorted(cov.get("parts", {}).keys())), cov.get("evaluations", "?"), ev.get("tier", "?"),
         cov.get("distinct_nontrivial", "?"), ", ".join(cov.get("exhaustive_parts", [])) or "-", nm, sm))
